@@ -189,6 +189,30 @@ def main():
                     sp, "names d/f, no '..' component" if is_good else "contains a '..' component", name, kind, why),
                     files={"case.json": json.dumps({"funnel": True, "spelling": sp.decode("latin1"), "good": is_good})},
                     replay_sh="python3 /verif/checks/C18.py --replay .")
+        # unpack paths: every attribute of an unpacked entry must be applied through the canonical (relative) form of its path
+        ud = tempfile.mkdtemp(prefix="u", dir=sd)
+        os.makedirs(os.path.join(ud, "in", "d"))
+        open(os.path.join(ud, "in", "d", "f"), "wb").write(b"payload\n")
+        open(os.path.join(ud, "l.txt"), "wb").write(b"dir /d 0750 0 0\nfile /d/f 0640 0 0 d/f\nslink /d/s 0777 0 0 f\n")
+        open(os.path.join(ud, "x.txt"), "wb").write(b"# file: d/f\nuser.k=\"v\"\n\n# file: d\nuser.d=\"w\"\n")
+        uimg = os.path.join(ud, "u.sqfs")
+        ru = run_tool([FT["gensquashfs"], "-q", "-F", os.path.join(ud, "l.txt"), "-D", os.path.join(ud, "in"), "-A", os.path.join(ud, "x.txt"), uimg], timeout=30)
+        if ru.rc != 0:
+            raise RuntimeError("cannot build the unpack image: %s" % ru.err[-200:])
+        for uopts in (["-X"], ["-C", "-O", "-T", "-X"], ["-C", "-O", "-T"]):
+            R = os.path.join(ud, "R" + "".join(o.strip("-") for o in uopts))
+            ru = run_tool([FT["rdsquashfs"], "-q", "-u", "/", "-p", R] + uopts + [uimg], timeout=30, cwd=ud)
+            n_funnel += 1
+            okx = True
+            if ru.rc == 0 and "-X" in uopts:
+                try:
+                    okx = os.getxattr(os.path.join(R, "d", "f"), "user.k") == b"v" and os.getxattr(os.path.join(R, "d"), "user.d") == b"w"
+                except OSError:
+                    okx = False
+            if ru.crashed or ru.rc != 0 or not okx or not os.path.exists(os.path.join(R, "d", "f")):
+                cr.violation("C18|funnel|rdsquashfs unpack path|%s" % ("attributes-not-applied" if ru.rc == 0 else "fails"),
+                             "rdsquashfs -u / -p R %s on an image with xattrs: rc=%d %s" % (" ".join(uopts), ru.rc, ru.err.decode("latin1")[-300:]),
+                             files={"case.json": json.dumps({"unpack": uopts})})
         cr.coverage["funnel_spellings"] = {"clean_equivalents": len(good), "with_dotdot": len(bad), "funnels": 8}
         tot["evaluations"] += n_funnel
         cr.coverage.update(evaluations=tot["evaluations"],
